@@ -21,7 +21,7 @@ import (
 
 // C19: Parse depends only on the path and the Config given to that call.
 //
-// Operation alphabet: Parse(path, config) for 13 paths x 7 configs, "rebind f in the shared
+// Operation alphabet: Parse(path, config) for 19 paths x 9 configs, "rebind f in the shared
 // Config object", and "call the function returned by the i-th earlier Parse again". Every
 // operation's outcome must equal the outcome of the same operation performed FIRST in a FRESH
 // PROCESS (references are computed by one subprocess per operation).
@@ -49,8 +49,18 @@ var c19Paths = []string{
 }
 
 // config kinds: 0 none, 1 {f}, 2 {g}, 3 {f' = same name, other behaviour}, 4 accessor only,
-// 5 {f,g}+accessor, 6 the SHARED config object (f, possibly rebound by an earlier operation)
-const c19NumCfg = 7
+// 5 {f,g}+accessor, 6 the SHARED config object (f, possibly rebound by an earlier operation),
+// 7 two Config arguments: the shared object and a fresh {f', h, g}, 8 a by-value COPY of the shared
+// object on which SetAccessorMode was called after copying
+const c19NumCfg = 9
+
+// kinds 7 and 8 are exercised with the paths that can observe them (plain, f, g)
+func c19OpEnabled(op int) bool {
+	if op >= c19NumParse() {
+		return true
+	}
+	return op%c19NumCfg < 7 || op/c19NumCfg <= 2
+}
 
 func c19F(v interface{}) (interface{}, error) {
 	if f, ok := v.(float64); ok {
@@ -80,6 +90,15 @@ func c19Config(kind int, shared *jsonpath.Config) []jsonpath.Config {
 		c.SetAccessorMode()
 	case 6:
 		return []jsonpath.Config{*shared}
+	case 7:
+		c.SetFilterFunction("f", c19F2)
+		c.SetFilterFunction("h", c19F)
+		c.SetAggregateFunction("g", c19G)
+		return []jsonpath.Config{*shared, c}
+	case 8:
+		cp := *shared
+		cp.SetAccessorMode()
+		return []jsonpath.Config{cp}
 	}
 	return []jsonpath.Config{c}
 }
@@ -146,11 +165,10 @@ func c19Apply(s *c19State, op int) (outcome, refKey string) {
 			refKey = fmt.Sprintf("%d/3", pi) // the shared object now holds f' only: same as config kind 3
 		} else if ck == 6 {
 			refKey = fmt.Sprintf("%d/1", pi)
+		} else if ck > 6 && s.rebound {
+			refKey += "r" // reference: fresh process, rebind, then this operation
 		}
-		pr := impl.Parse(c19Paths[pi], nil)
-		if cfg := c19Config(ck, &s.shared); cfg != nil {
-			pr = impl.Parse(c19Paths[pi], &cfg[0])
-		}
+		pr := impl.ParseN(c19Paths[pi], c19Config(ck, &s.shared)...)
 		switch {
 		case pr.Panic != "":
 			return "panic:" + pr.Panic, refKey
@@ -307,12 +325,20 @@ func (j *c19Job) minimise(expected string) []int {
 func c19References() (map[string]string, error) {
 	refs := map[string]string{}
 	for pi := range c19Paths {
-		for ck := 0; ck < 6; ck++ {
-			out, err := exec.Command(os.Args[0], "-c19ref", fmt.Sprint(pi), fmt.Sprint(ck)).Output()
-			if err != nil {
-				return nil, fmt.Errorf("reference process for %s cfg%d failed: %v", c19Paths[pi], ck, err)
+		for ck := 0; ck < c19NumCfg; ck++ {
+			if ck == 6 || !c19OpEnabled(pi*c19NumCfg+ck) {
+				continue
 			}
-			refs[fmt.Sprintf("%d/%d", pi, ck)] = string(out)
+			for _, rebound := range []string{"", "r"} {
+				if rebound == "r" && ck < 7 {
+					continue
+				}
+				out, err := exec.Command(os.Args[0], "-c19ref", fmt.Sprint(pi), fmt.Sprint(ck), rebound).Output()
+				if err != nil {
+					return nil, fmt.Errorf("reference process for %s cfg%d failed: %v", c19Paths[pi], ck, err)
+				}
+				refs[fmt.Sprintf("%d/%d%s", pi, ck, rebound)] = string(out)
+			}
 		}
 	}
 	return refs, nil
@@ -324,7 +350,11 @@ func C19RefMain(args []string) int {
 	fmt.Sscan(args[0], &pi)
 	fmt.Sscan(args[1], &ck)
 	sched.Install()
-	out, _ := c19Apply(newC19State(), pi*c19NumCfg+ck)
+	s := newC19State()
+	if len(args) > 2 && args[2] == "r" {
+		c19Apply(s, c19NumParse())
+	}
+	out, _ := c19Apply(s, pi*c19NumCfg+ck)
 	fmt.Print(out)
 	return 0
 }
@@ -351,7 +381,7 @@ func (j *c19Job) beginHistory() {
 }
 
 func (j *c19Job) note(op int) {
-	if op < c19NumParse() && op%c19NumCfg != 6 {
+	if op < c19NumParse() && op%c19NumCfg < 6 {
 		j.recent = append(j.recent, op)
 		if len(j.recent) > 4 {
 			j.recent = j.recent[len(j.recent)-4:]
@@ -437,6 +467,9 @@ func (j *c19Job) RunUnit(i int, c *run.Ctx) {
 		j.explicitState(c)
 		return
 	}
+	if !c19OpEnabled(i) {
+		return
+	}
 	// all histories of length <= depth that start with operation i
 	n := c19NumOps()
 	var rec func(hist []int)
@@ -460,6 +493,9 @@ func (j *c19Job) RunUnit(i int, c *run.Ctx) {
 			return
 		}
 		for op := 0; op < n; op++ {
+			if !c19OpEnabled(op) {
+				continue
+			}
 			// depth pruning for the quick tier: the third operation ranges over a reduced alphabet
 			if j.tier != "thorough" && len(hist) == 2 && op < c19NumParse() && (op%c19NumCfg)%2 == 1 && (op/c19NumCfg)%3 != 0 {
 				continue
@@ -582,6 +618,9 @@ func (j *c19Job) explicitState(c *run.Ctx) {
 		cur := frontier[0]
 		frontier = frontier[1:]
 		for op := 0; op < n; op++ {
+			if !c19OpEnabled(op) {
+				continue
+			}
 			c.Tick()
 			j.beginHistory()
 			// reach the state by replaying its history, then apply op
@@ -620,7 +659,7 @@ func init() {
 			"the state hash covers every package-level variable (reflectively, unexported fields included; function values as nil/non-nil) and the pool contents; state hidden in closures of the generated matcher is outside the hash - part (i) does not depend on the hash",
 		},
 		Bounds: map[string]string{
-			"quick":    "operations: Parse of 19 paths (plain, filter function, aggregate, functions inside filters, nested parameters, and one failing at each action: bad integer, bad float, bad regex, bad string, unknown function after a known one, script, value-group comparison, two @ operands, trailing garbage) x 7 configs (none, {f}, {g}, {f'}, accessor, all, shared object), 'rebind f in the shared Config', 're-call an earlier function'; all histories of length <=2 and length 3 with a reduced third alphabet; BFS to fixpoint",
+			"quick":    "operations: Parse of 19 paths (plain, filter function, aggregate, functions inside filters, nested parameters, and one failing at each action: bad integer, bad float, bad regex, bad string, unknown function after a known one, script, value-group comparison, two @ operands, trailing garbage) x 7 configs (none, {f}, {g}, {f'}, accessor, all, shared object) plus, for the plain / f / g paths, two Config arguments (shared object, fresh {f', h, g}) and a by-value copy of the shared object with accessor mode set on the copy, 'rebind f in the shared Config', 're-call an earlier function'; all histories of length <=2 and length 3 with a reduced third alphabet; BFS to fixpoint",
 			"thorough": "all histories of length <=3 over the full alphabet and length 4 with the reduced last alphabet; BFS to fixpoint",
 		},
 		New: newC19,
